@@ -48,7 +48,12 @@ package dtls
 
 // Return-routability messages are handled by their own contract (C15); here only their frame matters.
 //@ func returnRoutabilityConn.HandleRecord
-//@ noinline
+//@ watch incomingPacketState.markPacketAsValid send:Conn.decrypted
+//@ requires args: prepared.header != nil && prepared.markPacketAsValid != nil && message != nil && c.conn != nil && wfConn(c.conn)
+//@ ensures commit-at-most-once: ncalls("incomingPacketState.markPacketAsValid") <= 1
+//@ ensures never-delivers: !called("send:Conn.decrypted")
+//@ ensures epoch0-not-committed: old(prepared.header.Epoch) == 0 ==> !called("incomingPacketState.markPacketAsValid") && result2 != nil
+//@ ensures not-negotiated-not-committed: !old(c.conn.state.(*dtlsstate.State12).Common.RRCNegotiated) && is12(c.conn) ==> !called("incomingPacketState.markPacketAsValid") && result2 != nil
 //@ end
 
 // Decrypt-then-commit (RFC 6347 4.1.2.6/4.1.2.7): a protected record is handed on only if the cipher
